@@ -40,21 +40,26 @@ func opCtx(kind, tag string) (ctx context.Context, after func()) {
 func cancelledAfterReturn(kind string) bool { return kind == ctxCancel || kind == ctxDeadline }
 
 type op struct {
-	K    string        `json:"k"` // read index get set setexp write del ff dberr outage waitcleaner
-	Slot int           `json:"slot,omitempty"`
-	Name string        `json:"name,omitempty"`
-	IsI  bool          `json:"index_key,omitempty"` // get/set/del address the index key of Name instead of the primary key of Slot
-	Mut  string        `json:"mut,omitempty"`       // upsert bump delete
-	D    time.Duration `json:"d,omitempty"`
-	Good bool          `json:"good,omitempty"` // set: what the database holds (else an arbitrary value)
-	Exp  bool          `json:"exp,omitempty"`  // read through TakeWithExpire
-	Node int           `json:"node,omitempty"` // outage: -1 all nodes of the store
-	Kind string        `json:"kind,omitempty"` // outage kind, "" lifts
-	On   bool          `json:"on,omitempty"`   // dberr
-	Ctx  string        `json:"ctx,omitempty"`  // kind of the context the call runs under (API with context only)
+	K     string        `json:"k"` // read index get set setexp write del ff dberr outage waitcleaner
+	Slot  int           `json:"slot,omitempty"`
+	Name  string        `json:"name,omitempty"`
+	IsI   bool          `json:"index_key,omitempty"` // get/set/del address the index key of Name instead of the primary key of Slot
+	Mut   string        `json:"mut,omitempty"`       // upsert bump delete
+	D     time.Duration `json:"d,omitempty"`
+	Good  bool          `json:"good,omitempty"`  // set: what the database holds (else an arbitrary value)
+	Exp   bool          `json:"exp,omitempty"`   // read through TakeWithExpire
+	Node  int           `json:"node,omitempty"`  // outage: -1 all nodes of the store
+	Kind  string        `json:"kind,omitempty"`  // outage kind, "" lifts
+	On    bool          `json:"on,omitempty"`    // dberr
+	Ctx   string        `json:"ctx,omitempty"`   // kind of the context the call runs under (API with context only)
+	Panic bool          `json:"panic,omitempty"` // read/index: the query closure panics if it gets called (recovered by the harness)
 }
 
 func (o op) String() string {
+	if o.Panic {
+		o.Panic = false
+		return o.String() + "!panic"
+	}
 	if o.Ctx != ctxBG {
 		c := o.Ctx
 		o.Ctx = ctxBG
@@ -204,6 +209,7 @@ func (h *hist) opRead(o op, written map[string]wr, mustAbsent map[string]string)
 	}
 	want := h.dbRow(o.Slot)
 	switch {
+	case h.panickedOp(o, "read", res):
 	case h.preCancelled(o, err):
 		// the context was dead before the call: failing is legitimate; nothing may be cached from it
 		if !cached {
